@@ -15,7 +15,7 @@ CONSTANTS
   Buds = {0}
   NSAs = {FALSE}
   OptSets <- OptsPlain
-  Budgets = {3, 5, 8, 11, 14}
+  Budgets = {5, 11}
 VIEW MCView
 INVARIANTS TypeOK AtMostOnce ExactlyOnce Unbiased KeptRowsFactorGE1 NoSampleAgentKept SameFactorInLeaf FitsNothingSampled FairShare FixedWithinBudget FairShareRemaining FitIsJustified Monotone KeptWithinBudget QuotaWithinTotal QuotaProportional QuotaFitIsSize QuotaWithinTotalAnyRounding ExportDone
 CHECK_DEADLOCK FALSE
